@@ -12,6 +12,7 @@ import (
 	"sort"
 	"strconv"
 	"strings"
+	"time"
 
 	"perkeep.org/pkg/blob"
 	"perkeep.org/pkg/blobserver"
@@ -329,6 +330,23 @@ func (e *exec) callsOp() string {
 	return strings.Join(out, " ")
 }
 
+// call runs f (a call into the store) on a goroutine of its own that the index holds never block, and
+// gives up after callTimeout: the answer is then "hang" and the goroutine is abandoned.
+func (e *exec) call(f func() string) string {
+	done := make(chan string, 1)
+	kv := e.w.kv
+	go func() {
+		kv.exemptMe()
+		done <- hk.Guard(f)
+	}()
+	select {
+	case out := <-done:
+		return out
+	case <-time.After(callTimeout):
+		return "hang"
+	}
+}
+
 // ---- API ops ----------------------------------------------------------------------------------------
 
 func classify(err error) string {
@@ -362,7 +380,7 @@ func (e *exec) recv(late bool, ref string, data []byte) string {
 		}
 	}
 	e.w.meta.mu.Unlock()
-	out := hk.Guard(func() string {
+	out := e.call(func() string {
 		sb, err := e.w.sto.ReceiveBlob(ctxbg, br, bytes.NewReader(data))
 		if err != nil {
 			return classify(err)
@@ -373,6 +391,10 @@ func (e *exec) recv(late bool, ref string, data []byte) string {
 		return fmt.Sprintf("ok %d", sb.Size)
 	})
 	e.w.kv.release()
+	e.w.kv.clearExempt()
+	if out == "hang" {
+		return out
+	}
 	e.w.meta.mu.Lock()
 	e.w.meta.onRecv = nil
 	e.w.meta.mu.Unlock()
@@ -409,6 +431,7 @@ func (e *exec) recvOver(ref string, data []byte) string {
 	}
 	e.w.meta.mu.Unlock()
 	one := func() string {
+		e.w.kv.exemptMe()
 		return hk.Guard(func() string {
 			sb, err := e.w.sto.ReceiveBlob(ctxbg, br, bytes.NewReader(data))
 			if err != nil {
@@ -419,6 +442,19 @@ func (e *exec) recvOver(ref string, data []byte) string {
 			}
 			return fmt.Sprintf("ok %d", sb.Size)
 		})
+	}
+	bounded := func(c chan string) string {
+		select {
+		case out := <-c:
+			return out
+		case <-time.After(callTimeout):
+			return "hang"
+		}
+	}
+	oneB := func() string {
+		c := make(chan string, 1)
+		go func() { c <- one() }()
+		return bounded(c)
 	}
 	st := &stallCtl{make(chan struct{}), make(chan struct{}), make(chan struct{})}
 	e.w.blobs.mu.Lock()
@@ -433,18 +469,24 @@ func (e *exec) recvOver(ref string, data []byte) string {
 		e.w.blobs.mu.Lock()
 		e.w.blobs.stall = nil
 		e.w.blobs.mu.Unlock()
-		outB = one()
+		outB = oneB()
 	case <-st.entered:
-		outB = one()
+		outB = oneB()
 		e.w.kv.release()
 		if !e.w.quiesceBut(1) {
 			outB = "hang"
 		}
 		n = 0
 		close(st.release)
-		outA = <-doneA
+		outA = bounded(doneA)
+	case <-time.After(callTimeout):
+		outA, outB = "hang", "hang"
 	}
 	e.w.kv.release()
+	e.w.kv.clearExempt()
+	if outA == "hang" || outB == "hang" {
+		return "hang"
+	}
 	e.w.meta.mu.Lock()
 	e.w.meta.onRecv = nil
 	e.w.meta.mu.Unlock()
@@ -465,7 +507,7 @@ func fetchRaw(sto blobserver.Storage, ref string) ([]byte, uint32, string) {
 	}
 	var data []byte
 	var size uint32
-	cl := hk.Guard(func() string {
+	cl := boundedGuard(func() string {
 		rc, sz, err := sto.Fetch(ctxbg, br)
 		if err != nil {
 			return classify(err)
@@ -479,6 +521,18 @@ func fetchRaw(sto blobserver.Storage, ref string) ([]byte, uint32, string) {
 		return "ok"
 	})
 	return data, size, cl
+}
+
+// boundedGuard is hk.Guard with the call timeout (the goroutine is abandoned on a stall).
+func boundedGuard(f func() string) string {
+	done := make(chan string, 1)
+	go func() { done <- hk.Guard(f) }()
+	select {
+	case out := <-done:
+		return out
+	case <-time.After(callTimeout):
+		return "hang"
+	}
 }
 
 func (e *exec) fetch(ref string) string {
@@ -500,7 +554,7 @@ func (e *exec) stat(ref string) string {
 	if !ok {
 		return "badref"
 	}
-	return hk.Guard(func() string {
+	return boundedGuard(func() string {
 		out := "notexist"
 		err := e.w.sto.StatBlobs(ctxbg, []blob.Ref{br}, func(sb blob.SizedRef) error {
 			out = fmt.Sprintf("ok %d", sb.Size)
@@ -517,7 +571,7 @@ func (e *exec) enum(after string, limit int) string {
 	if !e.up {
 		return "down"
 	}
-	return hk.Guard(func() string {
+	return boundedGuard(func() string {
 		ch := make(chan blob.SizedRef, 16)
 		errc := make(chan error, 1)
 		go func() { errc <- e.w.sto.EnumerateBlobs(ctxbg, ch, after, limit) }()
